@@ -286,6 +286,27 @@ def check_buffer_class(chk, db, rec_q, rule_ids, guard_required=True):
     for m in one_per_pattern(methods, {test_name}):
         if rule_ids.get('T'):
             check_limit_test(chk, db, m, roles, limit_err, rule_ids['T'], '%s::%s' % (rec_q.replace('nop::', ''), m['n']))
+    if rule_ids.get('T'):
+        # the budget arithmetic is unsigned: converting the position / limit (or their difference, or a requested length) to a SIGNED
+        # type makes a request of 2^63 bytes or more compare as negative - it "fits" - and a large remaining budget as exhausted
+        bad = []
+        seen_pat = set()
+        for m in methods:
+            if 'body' not in m or (m['file'], m['pat']['l']) in seen_pat:
+                continue
+            seen_pat.add((m['file'], m['pat']['l']))
+            pids = {p['id'] for p in m['params'] if p.get('integral')}
+            for y in ir.walk(m['body']):
+                if y.get('k') in ('icast', 'cast') and y.get('ck') == 'IntegralCast' and (y.get('from') or '').replace('const ', '') in ('unsigned long', 'unsigned long long', 'std::size_t', 'size_t') and \
+                        (y.get('to') or '').replace('const ', '') in ('long', 'long long', 'int', 'std::ptrdiff_t', 'ptrdiff_t'):
+                    inner = [z for z in ir.walk(y.get('e')) if (z.get('k') == 'mem' and z.get('n') in (roles.pos, roles.limit)) or
+                             (z.get('k') == 'ref' and z.get('id') in pids and m['n'] in (test_name, 'Read', 'Write', 'Skip'))]
+                    if inner and ir.const_of(ir.strip_all_casts(y)) is None:
+                        bad.append((m['n'], y.get('loc', {}).get('l') or m['pat']['l'], y.get('to')))
+        r0 = db.records[rec_q]
+        chk.decide(not bad, rule_ids['T'], '%s:%d unsigned' % (r0['file'], r0['loc']['l']),
+                   '%s: %s' % (rec_q.replace('nop::', ''), ('position / limit / length arithmetic is converted to the signed type %s in %s (line %s)' % (
+                       bad[0][2], bad[0][0], bad[0][1])) if bad else 'position / limit / length arithmetic stays unsigned'), function=rec_q)
     prim_names = {'Read', 'Skip'} if kind == 'reader' else {'Write', 'Skip'}
     for m in one_per_pattern(methods, prim_names):
         label = '%s::%s(%s)' % (rec_q.replace('nop::', ''), m['n'], ', '.join(p['t'] for p in m['params']))
